@@ -436,6 +436,12 @@ theorem pfold_fst_indep (env : Env) (v : Stmt → Entry) (root : Mod) (X : Stmt)
     (pfold env v root X fs (e, t)).1 = (pfold env v root X fs (e, t')).1 :=
   pfold_fst_congr env v root X fs hfs (e, t) (e, t') rfl
 
+/-- The same for field steps among `preFields ++ postFields` (no include step there). -/
+theorem pfold_fst_indep' (env : Env) (v : Stmt → Entry) (root : Mod) (X : Stmt) (fs : List String)
+    (hfs : ∀ f ∈ fs, f ∈ preFields ++ postFields) (e : Entry) (t t' : TState) :
+    (pfold env v root X fs (e, t)).1 = (pfold env v root X fs (e, t')).1 :=
+  pfold_fst_indep env v root X fs (fun h => absurd (hfs _ h) (by decide)) e t t'
+
 /-! ### closed form of the fold over the fields -/
 
 theorem descE_dir (X : Stmt) (e : Entry) : (descE X e).dir = e.dir := by
